@@ -102,6 +102,29 @@ pub fn clock_env(offset_s: i64, step_ms: u64) -> Vec<(String, String)> {
     ]
 }
 
+/// Readings of a clock made by children under the shim, and the simulated
+/// time they covered (readings x step), summed over the batch (evidence).
+pub static CLOCK_READINGS: AtomicU64 = AtomicU64::new(0);
+pub static CLOCK_SIMULATED_MS: AtomicU64 = AtomicU64::new(0);
+pub static CLOCK_WORLDS: AtomicU64 = AtomicU64::new(0);
+
+/// Called after a child that ran under the shim has ended.
+pub fn account_clock(report: &Path, env: &[(String, String)]) {
+    let step: u64 = env
+        .iter()
+        .find(|(k, _)| k == "RRSS_VERIF_CLOCK_STEP_MS")
+        .and_then(|(_, v)| v.parse().ok())
+        .unwrap_or(0);
+    CLOCK_WORLDS.fetch_add(1, Ordering::Relaxed);
+    if let Ok(text) = fs::read_to_string(report) {
+        if let Ok(n) = text.trim().parse::<u64>() {
+            CLOCK_READINGS.fetch_add(n, Ordering::Relaxed);
+            CLOCK_SIMULATED_MS.fetch_add(n.saturating_mul(step), Ordering::Relaxed);
+        }
+    }
+    let _ = fs::remove_file(report);
+}
+
 /// A skew derived from a hash (for callers without a choice tape): up to
 /// about +-30 years, 0.7 to 90 s per reading.
 pub fn clock_env_for(h: u64) -> Vec<(String, String)> {
@@ -205,6 +228,13 @@ pub fn run(spec: &ProcSpec, scratch: &Scratch, tag: &str) -> Result<ProcResult, 
     for (k, v) in &spec.env {
         cmd.env(k, v);
     }
+    let clock_report = if spec.env.iter().any(|(k, _)| k == "RRSS_VERIF_CLOCK_STEP_MS") {
+        let p = scratch.path.join(format!("{}.clock", tag));
+        cmd.env("RRSS_VERIF_CLOCK_REPORT", &p);
+        Some(p)
+    } else {
+        None
+    };
     let open_append = |p: &Path| -> Result<File, String> {
         OpenOptions::new()
             .create(true)
@@ -328,6 +358,9 @@ pub fn run(spec: &ProcSpec, scratch: &Scratch, tag: &str) -> Result<ProcResult, 
             }
         }
     };
+    if let Some(p) = &clock_report {
+        account_clock(p, &spec.env);
+    }
     if let Some(f) = feeder {
         let _ = f.join();
     }
